@@ -99,6 +99,12 @@ void profile_writemon(const json& plan, Ctx& ctx) {
 		ctx.steps++;
 		if (op == "Save") { saveAndCheck(jbool(st, "raw", true), where + (jbool(st, "pipe", false) ? " (non-seekable stream)" : ""), jbool(st, "pipe", false)); ctx.sig.tag("save"); ctx.sig.i(jbool(st, "raw", true)); ctx.sig.i(jbool(st, "pipe", false)); }
 		else if (op == "Restart") {
+			if (st.contains("fail_first")) {
+				SaveSpec bad;
+				bad.raw = jbool(st, "raw", true);
+				bad.failAfter = size_t(ju64(st, "fail_first", 100));
+				if (saveNif(*nif, bad).streamFailed) ctx.fault("F-WFAIL");
+			}
 			SaveOut so = saveAndCheck(jbool(st, "raw", true), where);
 			auto fresh = std::make_unique<NifFile>();
 			if (loadNif(*fresh, so.bytes).rc != 0) ctx.viol("file:not-loadable", where + ": the written file does not load");
